@@ -138,6 +138,15 @@ def assert_entries():
             return [x]
         ents.append(Entry("fxp_assert_%s_Ff" % nm, fn2, ("x",), ref=(lambda k, f=f: f(k.v("x"), int(1.5 * (1 << k.r)))),
                           tags={"fxp", "assert"}))
+    for nm, f in rels:
+        def fn3(k, nm=nm):
+            x = k.F("x"); b = k.B("y")
+            getattr(x, "assert_" + nm)(b)
+            return [x, b]
+        ents.append(Entry("fxp_assert_%s_FB" % nm, fn3, ("x", "y"),
+                          ref=(lambda k, f=f: f(k.v("x"), k.v("y") * (1 << k.r))),
+                          assume=(lambda k: [(k.v("y") == 0) | (k.v("y") == 1)]), tags={"fxp", "assert"}))
+
     def fr(k):
         x = k.F("x")
         x.assert_range(-1.5, 2)
